@@ -500,3 +500,27 @@ Theorem C18_sat_example :
            (ALGate true 3)).
 Proof. exact ex_sform_hyps. Qed.
 Print Assumptions C18_sat_example.
+
+(** every accepted DIMACS file (CNF or a SAT format, any options): gate [k] only reads input
+    variables below the number of variables and gates with a SMALLER number, the root is in range;
+    hence the circuit is topologically ordered, passes the acyclicity test and has no gate that
+    depends on itself *)
+From OxiVerif Require Import IO.DimacsAcceptProofs.
+Theorem C18_sat_accept_topo : forall vo ct bs p, parse_dimacs vo ct bs = POk p ->
+  (forall k x l, nth_error (rp_gates p) k = Some x -> In l (snd x) ->
+     match l with
+     | ALConst _ => True
+     | ALIn _ i => i < vs_len (rp_vars p)
+     | ALGate _ g => g < N.of_nat k
+     | ALUndef _ => False
+     end) /\
+  match rp_root p with
+  | ALConst _ => True
+  | ALIn _ i => i < vs_len (rp_vars p)
+  | ALGate _ g => g < lenN (rp_gates p)
+  | ALUndef _ => False
+  end /\
+  topo_g (rp_gates p) /\ acyclic_g (rp_gates p) = true /\
+  forall g, ~ clos_trans nat (reads_g (rp_gates p)) g g.
+Proof. exact parse_dimacs_topo. Qed.
+Print Assumptions C18_sat_accept_topo.
